@@ -220,8 +220,9 @@ Proof.
 Qed.
 
 (* a step that starts somewhere below E: writes end by E, never reports TOO_SMALL, finishes by E on a multiple of al *)
+Definition noabort {A} (r : res A) : Prop := r <> Err ETooSmall /\ r <> Err EAssert.
 Definition sstep (al E : nat) (m : M nat) : Prop :=
-  log_all (bw_le E) m /\ fst m <> Err ETooSmall /\ forall o', fst m = Ok o' -> o' <= E /\ o' mod al = 0.
+  log_all (bw_le E) m /\ noabort (fst m) /\ forall o', fst m = Ok o' -> o' <= E /\ o' mod al = 0.
 
 Lemma sstep_weaken al E1 E2 m : E1 <= E2 -> sstep al E1 m -> sstep al E2 m.
 Proof.
@@ -239,7 +240,7 @@ Proof.
   - destruct (H3 o eq_refl) as [Ho Hm]. destruct (Hf o eq_refl Ho Hm) as (F1 & F2 & F3).
     unfold bindM. split; [|split]; cbn [fst snd]; [|exact F2 | exact F3].
     unfold log_all in *. cbn [snd] in *. rewrite forallb_app, (bw_le_all_mono _ _ _ HE H1). exact F1.
-  - unfold bindM. split; [|split]; cbn [fst snd]; [eapply bw_le_all_mono; eassumption | exact H2 | intros o' Ho; discriminate Ho].
+  - unfold bindM. split; [|split]; cbn [fst snd]; [eapply bw_le_all_mono; eassumption | destruct H2; split; congruence | intros o' Ho; discriminate Ho].
 Qed.
 
 Lemma sstep_tell al E l (m : M nat) : forallb (bw_le E) l = true -> sstep al E m -> sstep al E (bindM (tell l) (fun _ => m)).
@@ -249,14 +250,14 @@ Proof.
 Qed.
 
 Lemma sstep_ret al E o : o <= E -> o mod al = 0 -> sstep al E (ret o).
-Proof. intros H1 H2. split; [reflexivity|]. split; [discriminate|]. intros o' Ho. injection Ho as <-. auto. Qed.
+Proof. intros H1 H2. split; [reflexivity|]. split; [split; discriminate|]. intros o' Ho. injection Ho as <-. auto. Qed.
 
-Lemma sstep_fail al E e : e <> ETooSmall -> sstep al E (@fail nat e).
-Proof. intros H. split; [reflexivity|]. split; [cbn; congruence|]. intros o' Ho. discriminate Ho. Qed.
+Lemma sstep_fail al E e : e <> ETooSmall -> e <> EAssert -> sstep al E (@fail nat e).
+Proof. intros H H'. split; [reflexivity|]. split; [split; cbn; congruence|]. intros o' Ho. discriminate Ho. Qed.
 
 Lemma sstep_raw off w : sstep 1 (off + w) (w_raw off w).
 Proof.
-  unfold w_raw. split; [|split]; cbn [fst snd]; [|discriminate|].
+  unfold w_raw. split; [|split]; cbn [fst snd]; [|split; discriminate|].
   - unfold log_all. cbn [snd forallb bw_le]. rewrite Nat.leb_refl. reflexivity.
   - intros o' Ho. injection Ho as <-. split; [lia | apply Nat.mod_1_r].
 Qed.
@@ -338,7 +339,7 @@ Section SerBounds.
   Definition Pb (t : ty) : Prop := wf_ty t = true -> forall o lim off,
     off mod align t = 0 -> off + bmax t <= lim -> sstep (align t) (off + bmax t) (ws_body c t o lim off).
   Definition Pf (t : ty) : Prop := wf_ty t = true -> forall o lim off,
-    off mod align t = 0 -> off + fmax t <= lim -> sstep (align t) (off + fmax t) (ws_field c (ws_body c) t o lim off).
+    off mod align t = 0 -> off + fmax t <= lim -> sstep (align t) (off + fmax t) (ws_any c (ws_body c) t o lim off).
 
   Lemma fs_mod8 B fs : forall x, fields_sum B fs x mod 8 = 0.
   Proof. induction fs as [|f r IH]; intros x; cbn [fields_sum]; [apply (proj1 (pad8_spec x)) | apply IH]. Qed.
@@ -351,7 +352,11 @@ Section SerBounds.
 
   Lemma field_of_body t : Pb t -> Pf t.
   Proof.
-    intros Hb Hwf o lim off Hal Hlim. unfold ws_field, fmax, as_field_max in *.
+    intros Hb Hwf o lim off Hal Hlim. unfold ws_any.
+    assert (Has : w_assert c (off + as_field_max bmax t <=? lim) = ret tt).
+    { unfold w_assert. replace (off + as_field_max bmax t <=? lim) with true by (symmetry; apply Nat.leb_le; exact Hlim).
+      cbn [negb]. rewrite Bool.andb_false_r. reflexivity. }
+    rewrite Has. apply sstep_tell; [reflexivity|]. unfold ws_field, fmax, as_field_max in *.
     destruct t as [p|e n|e cp|u fs [x|]]; try (apply Hb; assumption).
     - (* delimited *)
       destruct (wf_extent _ _ _ Hwf) as [Hx Hx8]. assert (Hal8 : off mod 8 = 0) by exact Hal. set (t := TComp u fs (Some x)) in *.
@@ -382,7 +387,7 @@ Section SerBounds.
 
   Lemma ws_list_sound e lim : Pf e -> wf_ty e = true -> forall n l off,
     off mod align e = 0 -> off + n * fmax e <= lim ->
-    sstep (align e) (off + n * fmax e) (ws_list (fun x off' => ws_field c (ws_body c) e x lim off') n l off).
+    sstep (align e) (off + n * fmax e) (ws_list (fun x off' => ws_any c (ws_body c) e x lim off') n l off).
   Proof.
     intros He Hwf. induction n as [|n IH]; intros l off Hal Hlim; cbn [ws_list].
     - apply sstep_ret; [lia | exact Hal].
@@ -392,7 +397,7 @@ Section SerBounds.
 
   Lemma ws_fields_sound fs : Forall Pf fs -> forallb wf_ty fs = true -> forall S os lim off omax,
     S mod 8 = 0 -> off <= S + omax -> S + fields_sum fmax fs omax <= lim ->
-    sstep 8 (S + fields_sum fmax fs omax) (ws_fields (ws_field c (ws_body c)) fs os lim off).
+    sstep 8 (S + fields_sum fmax fs omax) (ws_fields (ws_any c (ws_body c)) fs os lim off).
   Proof.
     induction 1 as [|f fs Hf _ IH]; intros Hwf S os lim off omax HS Hoff Hlim; cbn [ws_fields fields_sum] in *.
     - pose proof (rup8_mono off (S + omax) Hoff). assert (pad8 (S + omax) = pad8 omax) by (unfold pad8; lia).
@@ -409,7 +414,7 @@ Section SerBounds.
 
   Lemma ws_sel_sound fs : Forall Pf fs -> forallb wf_ty fs = true -> forall k o lim off,
     off mod 8 = 0 -> off + fields_max fmax fs <= lim ->
-    sstep 1 (off + fields_max fmax fs) (ws_sel (ws_field c (ws_body c)) fs k o lim off).
+    sstep 1 (off + fields_max fmax fs) (ws_sel (ws_any c (ws_body c)) fs k o lim off).
   Proof.
     induction 1 as [|f fs Hf _ IH]; intros Hwf k o lim off Hal Hlim; cbn [ws_sel fields_max] in *.
     - destruct k; apply sstep_fail; discriminate.
@@ -469,12 +474,25 @@ Section SerBounds.
       clear - H1 Hcap. induction l as [|a r IH]; [reflexivity|]. cbn [forallb] in *. apply andb_prop in H1. destruct H1 as [Ha Hr].
       rewrite (IH Hr), Bool.andb_true_r. destruct a; cbn [bw_le acc_ok] in *; auto;
         apply Bool.orb_true_iff; left; apply Nat.leb_le in Ha; apply Nat.leb_le; unfold bytes_hi in Ha; lia.
-    - split; [|exact H2]. unfold log_all in *. cbn [snd] in *.
+    - split; [|exact (proj1 H2)]. unfold log_all in *. cbn [snd] in *.
       clear - H1 Hcap. induction l as [|a r IH]; [reflexivity|]. cbn [forallb] in *. apply andb_prop in H1. destruct H1 as [Ha Hr].
       rewrite (IH Hr), Bool.andb_true_r. destruct a; cbn [bw_le acc_ok] in *; auto;
         apply Bool.orb_true_iff; left; apply Nat.leb_le in Ha; apply Nat.leb_le; unfold bytes_hi in Ha; lia.
   Qed.
 End SerBounds.
+
+(* NUNAVUT_ASSERT((offset_bits + <max>) <= capacity_bytes * 8) of _serialize_any never fires when the up-front test is compiled in: too small
+   a buffer is refused first, any other satisfies the invariant the assertion restates - EVERY buffer size, every object content *)
+Theorem ser_asserts_never_fire_checked c t o capB : plan_ok c -> up_front c = true -> cap_sound c -> wf_ty t = true -> align t = 8 ->
+  fst (walk_ser_safe c t o capB) <> Err EAssert.
+Proof.
+  intros Hpl Hu Hc Hwf Ha. destruct (Nat.ltb_spec (8 * capB) (bmax t)) as [Hlt|Hge].
+  - rewrite (too_small_no_write c t o capB Hpl Hu Hlt). discriminate.
+  - unfold walk_ser_safe, ordered. rewrite Hpl. cbn [pl_ser_impl all_first].
+    replace (8 * capB <? bmax t) with false by (symmetry; apply Nat.ltb_ge; exact Hge). rewrite Bool.andb_false_r.
+    destruct (ws_body_sound c Hpl Hc t Hwf o (8 * capB) 0) as (_ & [_ Hn] & _); [rewrite Ha; reflexivity | lia|].
+    destruct (ws_body c t o (8 * capB) 0) as [[off|e] l]; unfold bindM, ret; cbn [fst snd] in *; [discriminate | exact Hn].
+Qed.
 
 (* the cursor never passes the capacity: the reported size fits the buffer (so W-bit cursor arithmetic cannot wrap when 8*capB < 2^W) *)
 Theorem ser_size_le c t o capB n : plan_ok c -> cap_sound c -> wf_ty t = true -> align t = 8 -> bmax t <= 8 * capB ->
@@ -623,7 +641,8 @@ Section Errs.
   Variable c : cfg.
   Hypothesis Hpl : plan_ok c.
   Let Sd := des_err_documented.
-  Let Ss := ser_err_documented.
+  (* documented, or the abort of a failed NUNAVUT_ASSERT (excluded separately: ser_asserts_never_fire) *)
+  Let Ss := fun e => ser_err_documented e || (asserts c && assert_max c && match e with EAssert => true | _ => false end).
 
   Lemma wd_list_errs De : (forall p buf cap off, errs_in Sd (De p buf cap off)) -> forall n ps buf cap off, errs_in Sd (wd_list De n ps buf cap off).
   Proof.
@@ -727,17 +746,24 @@ Section Errs.
     - apply errs_bind; [apply w_nest_errs|]. intros _. apply errs_bind; [apply errs_ok|]. intros _. apply H.
   Qed.
 
+  Lemma ws_any_errs Sr t : (forall o lim off, errs_in Ss (Sr t o lim off)) -> forall o lim off, errs_in Ss (ws_any c Sr t o lim off).
+  Proof.
+    intros H o lim off. unfold ws_any. apply errs_bind; [|intros _; apply ws_field_errs; exact H].
+    unfold w_assert. destruct (asserts c && assert_max c) eqn:E; cbn [andb]; [|apply errs_ok].
+    destruct (negb _); [apply errs_fail; unfold Ss; reflexivity | apply errs_ok].
+  Qed.
+
   Theorem ws_body_errs : forall t o lim off, errs_in Ss (ws_body c t o lim off).
   Proof.
     induction t as [q|e n IH|e cp IH|u fs ext IH] using ty_nested_ind; intros o lim off; cbn [ws_body].
     - apply ws_prim_errs.
     - apply errs_bind; [apply errs_ok|]. intros _. destruct (bulk c e); [apply w_store_errs|].
-      apply ws_list_errs. intros x off'. apply ws_field_errs, IH.
+      apply ws_list_errs. intros x off'. apply ws_any_errs, IH.
     - unfold ordered; rewrite Hpl; cbn [pl_ser_impl pl_ser_vla pl_des_vla pl_des_hdr all_first]. destruct (chk_cap c e cp <? o_count o); [apply errs_fail; reflexivity|].
       apply errs_bind; [apply errs_ok|]. intros _. apply errs_bind; [apply ws_prim_errs|]. intros o1.
-      destruct (bulk c e); [apply w_store_errs|]. apply ws_list_errs. intros x off'. apply ws_field_errs, IH.
-    - assert (HF : Forall (fun f => forall o lim off, errs_in Ss (ws_field c (ws_body c) f o lim off)) fs)
-        by (eapply Forall_impl; [|exact IH]; intros f Hf; apply ws_field_errs; exact Hf).
+      destruct (bulk c e); [apply w_store_errs|]. apply ws_list_errs. intros x off'. apply ws_any_errs, IH.
+    - assert (HF : Forall (fun f => forall o lim off, errs_in Ss (ws_any c (ws_body c) f o lim off)) fs)
+        by (eapply Forall_impl; [|exact IH]; intros f Hf; apply ws_any_errs; exact Hf).
       destruct u.
       + apply errs_bind; [apply ws_prim_errs|]. intros o1. apply errs_bind; [apply ws_sel_errs; exact HF|]. intros o2. apply ws_pad_errs.
       + apply ws_fields_errs. exact HF.
@@ -746,12 +772,14 @@ Section Errs.
   (* serialization returns Ok or one of BUFFER_TOO_SMALL / BAD_ARRAY_LENGTH / BAD_UNION_TAG *)
   Theorem ser_total t o capB :
     (exists n, fst (walk_ser_safe c t o capB) = Ok n) \/
-    (exists e, fst (walk_ser_safe c t o capB) = Err e /\ ser_err_documented e = true).
+    (exists e, fst (walk_ser_safe c t o capB) = Err e /\ (ser_err_documented e = true \/ (e = EAssert /\ asserts c && assert_max c = true))).
   Proof.
     assert (H : errs_in Ss (walk_ser_safe c t o capB)).
     { unfold walk_ser_safe. unfold ordered; rewrite Hpl; cbn [pl_ser_impl pl_ser_vla pl_des_vla pl_des_hdr all_first]. destruct (up_front c && _); [apply errs_fail; reflexivity|].
       apply errs_bind; [apply ws_body_errs|]. intros off. apply errs_ok. }
-    destruct (fst (walk_ser_safe c t o capB)) as [n|e] eqn:E; [left; eauto | right; exists e; split; [reflexivity | apply H; exact E]].
+    destruct (fst (walk_ser_safe c t o capB)) as [n|e] eqn:E; [left; eauto | right; exists e; split; [reflexivity|]].
+    specialize (H e E). unfold Ss in H. apply Bool.orb_true_iff in H. destruct H as [H|H]; [left; exact H | right].
+    apply andb_prop in H. destruct H as [H1 H2]. split; [destruct e; try discriminate; reflexivity | exact H1].
   Qed.
 End Errs.
 
@@ -922,21 +950,27 @@ Section SerGuarded.
     - apply log_bind; [apply nest_g|]. intros _ _. apply log_bind; [reflexivity|]. intros _ _. apply H. lia.
   Qed.
 
+  Lemma any_g Sr t : Sok (Sr t) -> Sok (ws_any c Sr t).
+  Proof.
+    intros H o lim off Hl. unfold ws_any. apply log_bind; [unfold w_assert; destruct (_ && _); reflexivity|].
+    intros _ _. apply field_g; [exact H | exact Hl].
+  Qed.
+
   Theorem body_g : forall t, Sok (ws_body c t).
   Proof.
     induction t as [q|e n IH|e cp IH|u fs ext IH] using ty_nested_ind; intros o lim off Hl; cbn [ws_body].
     - apply prim_g. exact Hl.
     - apply log_bind; [apply log_tell; cbn [forallb okg bw_le]; rewrite Nat.leb_refl; reflexivity|]. intros _ _.
       destruct (bulk c e); [apply store_g; exact Hl|].
-      apply (list_g (fun x lim off' => ws_field c (ws_body c) e x lim off')); [intros x lim' off' Hl'; apply field_g; [exact IH | exact Hl'] | exact Hl].
+      apply (list_g (fun x lim off' => ws_any c (ws_body c) e x lim off')); [intros x lim' off' Hl'; apply any_g; [exact IH | exact Hl'] | exact Hl].
     - unfold ordered; rewrite Hpl; cbn [pl_ser_impl pl_ser_vla pl_des_vla pl_des_hdr all_first]. destruct (chk_cap c e cp <? o_count o) eqn:En; [reflexivity|]. apply Nat.ltb_ge in En.
       apply log_bind.
       { apply log_tell. cbn [forallb okg bw_le]. rewrite Bool.andb_true_r. apply Nat.leb_le. unfold chk_cap in En. rewrite Hs in En. lia. }
       intros _ _. apply log_bind; [apply prim_g; exact Hl|]. intros o1 _.
       destruct (bulk c e); [apply store_g; exact Hl|].
-      apply (list_g (fun x lim off' => ws_field c (ws_body c) e x lim off')); [intros x lim' off' Hl'; apply field_g; [exact IH | exact Hl'] | exact Hl].
-    - assert (HF : Forall (fun f => Sok (ws_field c (ws_body c) f)) fs)
-        by (eapply Forall_impl; [|exact IH]; intros f Hf; apply field_g; exact Hf).
+      apply (list_g (fun x lim off' => ws_any c (ws_body c) e x lim off')); [intros x lim' off' Hl'; apply any_g; [exact IH | exact Hl'] | exact Hl].
+    - assert (HF : Forall (fun f => Sok (ws_any c (ws_body c) f)) fs)
+        by (eapply Forall_impl; [|exact IH]; intros f Hf; apply any_g; exact Hf).
       destruct u.
       + apply log_bind; [apply prim_g; exact Hl|]. intros o1 _. apply log_bind; [apply sel_g; [exact HF | exact Hl]|]. intros o2 _.
         apply pad_g. exact Hl.
